@@ -21,7 +21,7 @@ from vmon.props import c12
 
 LEVEL = "exploration"
 SHARDS = {"quick": 16, "thorough": 16}
-MUST = ["streams", "options.combos_seen", "solo.packets", "solo.unrecognized", "solo.flagged", "solo.framed_object_parses", "options.root_override_interleaved", "interleavings.exhaustive",
+MUST = ["streams", "options.combos_seen", "solo.packets", "solo.unrecognized", "solo.flagged", "solo.framed_object_parses", "streams.inspected_after_exhaustion", "interleave.calibrator_history", "options.root_override_interleaved", "interleavings.exhaustive",
         "interleavings.random", "interleavings.threads", "interleave.segmented", "immutability.snapshots", "setattr.monitored_classes"]
 RULE = ("(a) streams of 5-40 generated packets mixing several APIDs x {recognised, unrecognised (dead end / ambiguous), "
         "longer than consumed, shorter than consumed} under all 8 combinations of parse_bad_pkts, "
@@ -211,17 +211,26 @@ def expected_from_solo(solos, raws, parse_bad, yield_unrec, headers_only):
     return out
 
 
-def run_stream(defn, stream, **kw):
+def run_stream(defn, stream, deferred=False, **kw):
+    """deferred: the yielded objects are collected first and looked at only after the generator has finished (list(gen) and a
+    report afterwards): what was yielded stays what it was"""
     g = defn.packet_generator(stream, **kw)
-    items = []
+    items, objs = [], []
     for _ in range(len(stream) // 7 + 3):
         s = monitored(next, g)
         if s.exc is not None:
             if not isinstance(s.exc, StopIteration):
                 items.append(("exception", type(s.exc).__name__, str(s.exc)[:200]))
             break
-        items.append(plain_item(s.value))
+        if deferred:
+            objs.append(s.value)
+            items.append(None)
+        else:
+            items.append(plain_item(s.value))
     g.close()
+    if deferred:
+        it = iter(objs)
+        items = [plain_item(next(it)) if x is None else x for x in items]
     return items
 
 
@@ -277,7 +286,10 @@ def check_streams(ctx, d):
     mix = "".join(sorted({c[0] for c in classes}))
     for parse_bad, yield_unrec, headers_only in itertools.product((True, False), repeat=3):
         with Immut(ctx, defn, "packet_generator"):
-            got = run_stream(defn, stream, parse_bad_pkts=parse_bad, yield_unrecognized_packet_errors=yield_unrec,
+            deferred = (d + int(parse_bad)) % 2 == 0
+            if deferred:
+                ctx.count("streams.inspected_after_exhaustion")
+            got = run_stream(defn, stream, deferred=deferred, parse_bad_pkts=parse_bad, yield_unrecognized_packet_errors=yield_unrec,
                              ccsds_headers_only=headers_only)
         exp = expected_from_solo(solos, raws, parse_bad, yield_unrec, headers_only)
         ctx.count("evaluations")
@@ -465,8 +477,50 @@ def check_interleavings(ctx, d, defn_doc):
                           {"generator": gi, "got": (results[gi] or [])[:3], "alone": solos[gi][:3]})
 
 
+def calibrator_history(ctx):
+    """two generators of one definition over DIFFERENT streams, advanced alternately: values that sit exactly on spline points /
+    enumeration keys / criteria thresholds in one stream, values just beside them in the other. Each generator's sequence must
+    equal the one it produces alone (calibrators and criteria keep no memory of earlier evaluations)"""
+    from space_packet_parser import packets as P
+    from vmon.props.c05 import header_types
+    ts, ps = header_types("PKT_APID")
+    sp0 = ir.Spline(((0.0, 0.0), (10.0, 100.0), (20.0, 200.0), (200.0, 5.0)), 0, False)
+    sp1 = ir.Spline(((0.0, 0.0), (10.0, 100.0), (20.0, 50.0), (255.0, 5.0)), 1, True)
+    ts += [ir.PType("X_T", "integer", ir.IntEnc(8, "unsigned", False, sp0, ())), ir.PType("Y_T", "float", ir.IntEnc(8, "unsigned", False, sp1, ())),
+           ir.PType("Z_T", "integer", ir.IntEnc(8, "unsigned", False, ir.Poly(((1.5, 0), (2.0, 1))),
+                                                  (ir.ContextCal((ir.Comparison("X", "10", ">=", False),), ir.Poly(((7.0, 1),))),)))]
+    ps += [ir.Param("X", "X_T"), ir.Param("Y", "Y_T"), ir.Param("Z", "Z_T")]
+    root = ir.Container("CCSDSPacket", tuple(("p", p.name) for p in ps))
+    defn = load_definition(render.render_doc(ir.Doc(tuple(ts), tuple(ps), (root,))))
+    mk = lambda vals: b"".join(bytes(P.create_ccsds_packet(bytes(v), apid=5, sequence_count=i)) for i, v in enumerate(vals))
+    streams = [mk([(5, 5, 1), (9, 19, 2), (5, 15, 3), (15, 5, 4), (19, 9, 5), (150, 30, 6)]),
+               mk([(10, 10, 1), (10, 20, 2), (20, 10, 3), (20, 20, 4), (0, 0, 5), (200, 255, 6)]),
+               mk([(20, 10, 9), (5, 20, 9), (10, 5, 9), (0, 255, 9), (10, 10, 9), (9, 9, 9)])]
+    kw = {"yield_unrecognized_packet_errors": True}
+    alone = [run_stream(defn, st, **kw) for st in streams]
+    for sched_name, sched in (("round-robin", [0, 1, 2] * 8), ("pairs", [0, 0, 1, 1, 2, 2] * 4), ("reverse", [2, 1, 0] * 8)):
+        outs = interleave(defn, [(st, kw) for st in streams], sched)
+        ctx.count("evaluations")
+        ctx.count("interleave.calibrator_history")
+        ctx.sig("interleave", "calibrator-history", sched_name)
+        if outs != alone:
+            gi = next(i for i in range(3) if outs[i] != alone[i])
+            k = next((j for j, (a, b) in enumerate(zip(outs[gi], alone[gi])) if a != b), 0)
+            ctx.violation(f"interleaving/calibrator-history/{sched_name}", f"generator {gi} item {k} differs when three generators over different streams are advanced "
+                          f"alternately ({sched_name}) from what it yields alone", {"generator": gi, "item": k, "got": outs[gi][k:k + 1], "alone": alone[gi][k:k + 1]})
+    # the same within ONE generator: a stream and its reversal decode each packet to the same items
+    fwd = run_stream(defn, streams[0] + streams[1], **kw)
+    rev_stream = b"".join(reversed([streams[1][i:i + 9] for i in range(0, len(streams[1]), 9)] + [streams[0][i:i + 9] for i in range(0, len(streams[0]), 9)]))
+    rev = run_stream(defn, rev_stream, **kw)
+    key = lambda it: it[2] if len(it) > 2 else None
+    if sorted(map(repr, fwd)) != sorted(map(repr, rev)):
+        ctx.violation("order-dependence/calibrator-history", "the same packets decode to different items when the stream is reversed", {"n": len(fwd)})
+
+
 def run(ctx):
     arm_setattr(ctx)
+    if ctx.mine(1):
+        calibrator_history(ctx)
     ndocs = ctx.size(96, 15000)
     for d in range(ndocs):
         if not ctx.mine(d):
